@@ -6,6 +6,7 @@ import Clikit.Lemmas.C11Indent
 import Clikit.Lemmas.C11Balanced
 import Clikit.Lemmas.SectionScopes
 import Clikit.Props.C15
+import Clikit.Model.StyleSets
 /-!
 # C11 - decoration changes only the look: same text, right codes, none when plain
 
@@ -413,6 +414,54 @@ theorem sgr_call_ignores_registered_tag (s r : Style) (cs : List Nat) (h : specC
     ansiFormat (registryResolver reg') st text (some s) = ansiFormat (registryResolver reg) st text (some s) := by
   obtain ⟨_, _, _, _, _, _, hcall⟩ := sgr_exact_decided s cs h text
   exact ⟨hcall _ st hno, by rw [hcall _ st hno, hcall _ st hno]⟩
+
+/-! ## Formatters built from a given style set (round 10)
+
+All message theorems above hold for EVERY resolver, hence for the formatters of every style set.  What a style set
+contributes is the registry: only "no style set" (`None`) stands for the default set; a style set OBJECT - also one
+holding no style - is registered as it stands, on top of pastel's own four styles, for the ANSI and the plain
+formatter alike (both are `formatterRegistry` of the same argument). -/
+
+/-- no style set given: the default one -/
+theorem formatter_registry_none : formatterRegistry none = defaultRegistry := rfl
+
+/-- **a style set of size 0 registers nothing**: the formatter knows pastel's own styles only -/
+theorem formatter_registry_empty : formatterRegistry (some []) = pastelRegistry := by
+  unfold formatterRegistry
+  cases pastelRegistry <;> rfl
+
+/-- a default set from which every style was removed is the empty set, whatever the order of the removals -/
+theorem style_set_emptied (removed : List Str)
+    (h : ∀ s ∈ defaultStyleList, ∃ t, s.tag = some t ∧ t ∈ removed) :
+    styleSetOf defaultStyleList removed [] = [] := by
+  unfold styleSetOf
+  rw [List.append_nil, List.filter_eq_nil_iff]
+  intro s hs
+  obtain ⟨t, ht, hm⟩ := h s hs
+  simp [ht, hm]
+
+/-- **under an empty style set the default tag names that pastel does not know itself are text**: `b`, `u`, `c1`, `c2`
+resolve to nothing (so `<b>bold</b>` is printed as it stands, decorated or not - `strip_eq_plain` - and no SGR code is
+made up for it), while `info`, `comment`, `question`, `error` stay pastel's styles -/
+theorem empty_set_default_tags_are_text :
+    ∃ reg, formatterRegistry (some []) = .ok reg ∧
+      registryResolver reg ['b'] = .unknown ∧ registryResolver reg ['u'] = .unknown ∧
+      registryResolver reg ['c', '1'] = .unknown ∧ registryResolver reg ['c', '2'] = .unknown ∧
+      (registryResolver reg ['i', 'n', 'f', 'o'] ≠ .unknown) := by
+  rw [formatter_registry_empty]
+  exact ⟨_, rfl, by decide, by decide, by decide, by decide, by decide⟩
+
+/-- non-vacuity / the boundary case itself: `<b>x</b>` on the formatters of an empty style set -/
+example : ∃ reg, formatterRegistry (some []) = .ok reg ∧
+    ansiFormat (registryResolver reg) [] "<b>x</b>".toList none = .ok ("<b>x</b>".toList, []) ∧
+    plainFormat (registryResolver reg) [] "<b>x</b>".toList = .ok ("<b>x</b>".toList, []) := by
+  rw [formatter_registry_empty]
+  exact ⟨_, rfl, by rfl, by rfl⟩
+
+/-- `style_set_emptied` applies to the regenerated default style set with its eight tags removed -/
+example : styleSetOf defaultStyleList
+    [['i','n','f','o'], ['c','o','m','m','e','n','t'], ['q','u','e','s','t','i','o','n'], ['e','r','r','o','r'],
+     ['b'], ['u'], ['c','1'], ['c','2']] [] = [] := by decide
 
 /-! ## Non-vacuity -/
 
